@@ -1,7 +1,7 @@
 (* Facts about Model/Datatypes.v, part 3: SI and NM. *)
 From Coq Require Import List Bool Arith NArith ZArith Lia Init.Byte Strings.Byte.
 From HL7 Require Import Lib.Str Model.Ec Model.Result Model.Escape Model.Datatypes Gen.Params
-  Proofs.DatatypesFacts.
+  Proofs.DatatypesFacts Proofs.DatatypesDate.
 Import ListNotations.
 
 (* ------------------------------------------------------------------ *)
@@ -133,4 +133,142 @@ Proof.
   unfold canon_digits, lstrip0. induction s as [|c s IH]; intros H; [reflexivity|].
   cbn in H. apply andb_prop in H. destruct H as [Hc Hs]. cbn [lstrip_by].
   destruct (is_c c_0 c) eqn:E; [|reflexivity]. apply beqb_eq in E. subst c. rewrite digits_val_0. now apply IH.
+Qed.
+
+(* ------------------------------------------------------------------ *)
+(* maximum length (BaseDataType.__init__, on the formatted value)       *)
+
+Lemma impl_NM_parsed strict ml s d : s <> [] -> decimal_parse s = Some d ->
+  impl_NM strict ml s =
+  if strict && too_long ml (decimal_str d) then Err (HL7 EMaxLengthReached) else Ok (decimal_str d).
+Proof. intros Hs Hd. unfold impl_NM. rewrite Hd. destruct s; [congruence|reflexivity]. Qed.
+
+Lemma impl_SI_parsed strict ml s o : s <> [] -> int_parse s = Some o ->
+  impl_SI strict ml s = if strict && too_long ml o then Err (HL7 EMaxLengthReached) else Ok o.
+Proof. intros Hs Hd. unfold impl_SI. rewrite Hd. destruct s; [congruence|reflexivity]. Qed.
+
+Lemma impl_NM_accepted_short ml s t : s <> [] -> impl_NM true ml s = Ok t -> too_long ml t = false.
+Proof.
+  intros Hs. unfold impl_NM. destruct s as [|c s]; [congruence|]. cbn [nilb].
+  - destruct (decimal_parse (c :: s)) as [d|]; [|discriminate]. cbn [andb]. destruct (too_long ml (decimal_str d)) eqn:E; [discriminate|].
+    intros H. injection H as <-. exact E.
+Qed.
+Lemma impl_SI_accepted_short ml s t : s <> [] -> impl_SI true ml s = Ok t -> too_long ml t = false.
+Proof.
+  intros Hs. unfold impl_SI. destruct s as [|c s]; [congruence|]. cbn [nilb].
+  - destruct (int_parse (c :: s)) as [s0|]; [|discriminate]. cbn [andb]. destruct (too_long ml s0) eqn:E; [discriminate|].
+    intros H. injection H as <-. exact E.
+Qed.
+
+(* ------------------------------------------------------------------ *)
+(* the levels                                                            *)
+Lemma impl_NM_levels ml s :
+  match impl_NM false ml s with
+  | Ok t => impl_NM true ml s = Ok t \/ impl_NM true ml s = Err (HL7 EMaxLengthReached)
+  | Err x => x = PyValueError /\ impl_NM true ml s = Err PyValueError
+  end.
+Proof.
+  unfold impl_NM. cbn [andb]. destruct (nilb s); [destruct (too_long ml none_text); auto|].
+  destruct (decimal_parse s); [|auto]. destruct (too_long ml (decimal_str d)); auto.
+Qed.
+Lemma impl_SI_levels ml s :
+  match impl_SI false ml s with
+  | Ok t => impl_SI true ml s = Ok t \/ impl_SI true ml s = Err (HL7 EMaxLengthReached)
+  | Err x => x = PyValueError /\ impl_SI true ml s = Err PyValueError
+  end.
+Proof.
+  unfold impl_SI. cbn [andb]. destruct (nilb s); [destruct (too_long ml none_text); auto|].
+  destruct (int_parse s) as [s0|]; [|auto]. destruct (too_long ml s0); auto.
+Qed.
+
+(* ------------------------------------------------------------------ *)
+(* datatype_factory                                                      *)
+
+(* the only exceptions of a datatype: ValueError, and under STRICT MaxLengthReached for a value
+   that TOLERANT builds *)
+Definition kind_safe (k : dtkind) : Prop :=
+  forall strict ml s x, impl_kind k strict ml s = Err x ->
+    (x = PyValueError /\ impl_kind k true ml s = Err PyValueError) \/
+    (strict = true /\ x = HL7 EMaxLengthReached /\ exists t, impl_kind k false ml s = Ok t).
+
+Lemma kind_safe_DT : kind_safe KDT.
+Proof. intros strict ml s x H. cbn in *. pose proof (DT_only_valueerror _ _ H). subst. left. split; [reflexivity|exact H]. Qed.
+Lemma kind_safe_TM : kind_safe KTM.
+Proof. intros strict ml s x H. cbn in *. pose proof (TM_only_valueerror _ _ H). subst. left. split; [reflexivity|exact H]. Qed.
+Lemma kind_safe_NM : kind_safe KNM.
+Proof.
+  intros strict ml s x H. cbn in *. pose proof (impl_NM_levels ml s) as L. destruct strict.
+  - destruct (impl_NM false ml s) as [t|y] eqn:E.
+    + destruct L as [L|L]; rewrite L in H; [discriminate|]. injection H as <-. right. eauto.
+    + destruct L as [-> L]. rewrite L in H. injection H as <-. auto.
+  - rewrite H in L. destruct L as [-> L]. auto.
+Qed.
+Lemma kind_safe_SI : kind_safe KSI.
+Proof.
+  intros strict ml s x H. cbn in *. pose proof (impl_SI_levels ml s) as L. destruct strict.
+  - destruct (impl_SI false ml s) as [t|y] eqn:E.
+    + destruct L as [L|L]; rewrite L in H; [discriminate|]. injection H as <-. right. eauto.
+    + destruct L as [-> L]. rewrite L in H. injection H as <-. auto.
+  - rewrite H in L. destruct L as [-> L]. auto.
+Qed.
+
+(* every version has an ST class of a known escape family (decided on the generated table) *)
+Definition st_family (rows : list (str * dtkind * option Z)) : option esc_params :=
+  match row_lookup "ST"%bs rows with
+  | Some (KTextual f, _) => nth_error esc_families f
+  | _ => None
+  end.
+Definition table_has_st : bool :=
+  forallb (fun vr : str * list (str * dtkind * option Z) =>
+             match st_family (snd vr) with Some _ => true | None => false end) base_datatype_table.
+
+Lemma slookup_In {B} (k : str) (l : list (str * B)) v : slookup k l = Some v -> exists k', In (k', v) l.
+Proof.
+  unfold slookup. induction l as [|[k' v'] l IH]; [discriminate|]. cbn.
+  destruct (leqb beqb k k').
+  - intros H. injection H as <-. exists k'. now left.
+  - intros H. destruct (IH H) as [k2 Hk]. exists k2. now right.
+Qed.
+
+Lemma st_fallback_family rows e s p : st_family rows = Some p -> st_fallback rows e s = Ok (escape p e s).
+Proof.
+  unfold st_family, st_fallback. destruct (row_lookup _ rows) as [[k ml]|]; [|discriminate].
+  destruct k; try discriminate. intros ->. reflexivity.
+Qed.
+
+(* TOLERANT never rejects; what STRICT rejects with ValueError is kept as ST text *)
+Theorem factory_tolerant v rows name k ml e s :
+  table_has_st = true -> kind_safe k ->
+  slookup v base_datatype_table = Some rows -> row_lookup name rows = Some (k, ml) ->
+  (exists t, impl_kind k false ml s = Ok t /\ factory v TOLERANT name e s = Ok (false, t)) \/
+  (exists p, st_family rows = Some p /\
+             factory v STRICT name e s = Err PyValueError /\
+             factory v TOLERANT name e s = Ok (true, escape p e s)).
+Proof.
+  intros Hst Hk Hv Hn. unfold factory. rewrite Hv, Hn. cbn [is_strict].
+  destruct (impl_kind k false ml s) as [t|x] eqn:E.
+  - left. eauto.
+  - right. destruct (Hk false ml s x E) as [[-> Hs]|[Hc _]]; [|discriminate].
+    destruct (slookup_In _ _ _ Hv) as [v' Hin]. unfold table_has_st in Hst. rewrite forallb_forall in Hst.
+    specialize (Hst _ Hin). cbn [snd] in Hst. destruct (st_family rows) as [p|] eqn:F; [|discriminate].
+    exists p. rewrite Hs, (st_fallback_family rows e s p F). auto.
+Qed.
+
+(* a value STRICT accepts is built in the same way under TOLERANT *)
+Theorem factory_strict_ok v name e s t fb :
+  factory v STRICT name e s = Ok (fb, t) -> fb = false /\ factory v TOLERANT name e s = Ok (false, t).
+Proof.
+  unfold factory. destruct (slookup v base_datatype_table) as [rows|]; [|discriminate].
+  destruct (row_lookup name rows) as [[k ml]|]; [|discriminate]. cbn [is_strict].
+  destruct (impl_kind k true ml s) as [t'|x] eqn:E.
+  - intros H. injection H as <- <-. split; auto.
+    assert (impl_kind k false ml s = Ok t') as ->; [|reflexivity].
+    destruct k; cbn in *; auto.
+    + pose proof (impl_NM_levels ml s) as L. destruct (impl_NM false ml s) as [u|y].
+      * destruct L as [L|L]; congruence.
+      * destruct L as [_ L]. congruence.
+    + pose proof (impl_SI_levels ml s) as L. destruct (impl_SI false ml s) as [u|y].
+      * destruct L as [L|L]; congruence.
+      * destruct L as [_ L]. congruence.
+  - destruct x; discriminate.
 Qed.
